@@ -402,11 +402,16 @@ func main() {
 	seed := flag.Int64("seed", 1, "")
 	n := flag.Int("n", 100, "histories per structure")
 	length := flag.Int("len", 120, "calls per history")
+	only := flag.String("only", "", "restrict to one structure (lock: used for the tiny build)")
 	flag.Parse()
 	out = bufio.NewWriter(os.Stdout)
 	defer out.Flush()
 	rng := rand.New(rand.NewSource(*seed))
 	for i := 0; i < *n; i++ {
+		if *only == "lock" {
+			lockHistory(rng, *length*3)
+			continue
+		}
 		poolHistory(rng, *length)
 		intPoolHistory(rng, *length)
 		lockHistory(rng, *length*3)
